@@ -400,6 +400,13 @@ func execStore(t *testing.T, sc *ConcScenario, choose chooser) *execResult {
 		return res
 	}
 	s.releaseAll()
+	if leaked := s.leakedLocks(); len(leaked) > 0 {
+		res.viol = viol("deadlock", "a call returned while still holding %v: every later call that needs the lock blocks for ever", leaked)
+		res.outcome = "lock-leaked"
+		classifyConc(sc, recs, res.viol, init, nil)
+		abortProcessAfter(res)
+		return res
+	}
 	if cj != nil {
 		cj.log = append([]vos.Mut(nil), w.FS.Log()...)
 		cj.recs = append([]callRec(nil), recs...)
@@ -722,11 +729,30 @@ func c05Scenarios(tier string) []*ConcScenario {
 						ths = append(ths, []Op{opF})
 					}
 					sc := &ConcScenario{Prop: "C05", Cfg: c, Init: in.ops, Threads: ths, Bound: bound, Exec: execStore}
+					if withFlush {
+						sc.Extra = map[string]any{"final": reopenFinal}
+					}
 					sc.Name = fmt.Sprintf("c05/%s/%s/%s", c.String(), in.name, progString(ths))
 					sc.Desc = fmt.Sprintf("init %s [%s]; %s", in.name, opsString(in.ops), progString(ths))
 					scs = append(scs, sc)
 				}
 			}
+		}
+	}
+	// Two overlapping flushes (an explicit Flush next to the periodic one)
+	// with callers in between: the per-component flush locks serialise each
+	// component, not the commit as a whole.
+	for _, in := range []namedInit{inits[2], {"I6-K0K1-flushed-K4-unflushed", []Op{P(0, 1), P(1, 1), opF, P(4, 1)}}} {
+		for _, cl := range [][]Op{{P(0, 2)}, {P(0, 2), P(1, 2)}, {R(0), P(1, 2)}} {
+			c := cfgs[0]
+			ths := [][]Op{cl, {opF}, {opF}}
+			// (what the bucket table on disk says only shows after a reopen:
+			// the write pools answer until then)
+			sc := &ConcScenario{Prop: "C05", Cfg: c, Init: in.ops, Threads: ths, Bound: bound, Exec: execStore,
+				Extra: map[string]any{"final": reopenFinal}}
+			sc.Name = fmt.Sprintf("c05/%s/%s/%s", c.String(), in.name, progString(ths))
+			sc.Desc = fmt.Sprintf("init %s [%s]; %s", in.name, opsString(in.ops), progString(ths))
+			scs = append(scs, sc)
 		}
 	}
 	return scs
@@ -750,19 +776,31 @@ func reopenFinal(w *World, s *Sched, recs []callRec, res *execResult) {
 		res.viol = viol("call-error", "Close after quiescence: %v", err)
 		return
 	}
-	w.FS.RemoveRaw(idxPath + ".buckets")
-	if err := w.Open(); err != nil {
-		res.viol = viol("open-error", "reopen after quiescence: %v", err)
-		return
-	}
-	after := observeStore(w)
-	for i := range before {
-		if before[i] != after[i] {
-			res.viol = viol("key-lost", "after Flush+Close+reopen a read changed: %s became %s", before[i], after[i])
-			if strings.Contains(before[i], ":false:") {
-				res.viol.Symptom = "key-resurrected"
+	// through the saved bucket table first (what the in-memory table said at
+	// Close), then through a rescan of the index log
+	for _, rescan := range []bool{false, true} {
+		how := "Flush+Close+reopen"
+		if rescan {
+			if err := w.Close(); err != nil {
+				res.viol = viol("call-error", "second Close after quiescence: %v", err)
+				return
 			}
+			w.FS.RemoveRaw(idxPath + ".buckets")
+			how = "Flush+Close+reopen (index rescan)"
+		}
+		if err := w.Open(); err != nil {
+			res.viol = viol("open-error", "reopen after quiescence: %v", err)
 			return
+		}
+		after := observeStore(w)
+		for i := range before {
+			if before[i] != after[i] {
+				res.viol = viol("key-lost", "after %s a read changed: %s became %s", how, before[i], after[i])
+				if strings.Contains(before[i], ":false:") {
+					res.viol.Symptom = "key-resurrected"
+				}
+				return
+			}
 		}
 	}
 }
@@ -1276,6 +1314,25 @@ func runC17Seq(t *testing.T, c *Collector) {
 		{"garbage-index-header", func(w *World) { w.FS.WriteFileRaw(idxPath+".info", []byte("{not json")) }, nil, ""},
 		{"garbage-primary-header", func(w *World) { w.FS.WriteFileRaw(dataPath+".info", []byte("\x00\x01")) }, nil, ""},
 		{"unsupported-primary-type", nil, nil, "no-such-primary"},
+		// a legacy single-file index (6-byte header: version, bucket bits)
+		// of a version the upgrade does not know, and one cut off inside its
+		// header
+		{"legacy-index-unknown-version", func(w *World) {
+			for _, n := range w.FS.Names() {
+				if strings.HasPrefix(n, idxPath) {
+					w.FS.RemoveRaw(n)
+				}
+			}
+			w.FS.WriteFileRaw(idxPath, []byte{2, 0, 0, 0, 1, 8, 0, 0, 0, 0})
+		}, nil, ""},
+		{"legacy-index-short-header", func(w *World) {
+			for _, n := range w.FS.Names() {
+				if strings.HasPrefix(n, idxPath) {
+					w.FS.RemoveRaw(n)
+				}
+			}
+			w.FS.WriteFileRaw(idxPath, []byte{2, 0, 0})
+		}, nil, ""},
 	}
 	for _, fc := range cases {
 		fc := fc
@@ -1592,6 +1649,9 @@ func c03ConcScenarios(tier string) []*ConcScenario {
 	gcProgs := [][][]Op{
 		{{{Kind: OpPriGC, A: 0}}, {P(0, 2), opF}},
 		{{{Kind: OpIdxGC, B: true}}, {P(0, 2), opF}},
+		// the hand-over of the freelist file to GC between a commit's
+		// reading of the put count and its freelist flush
+		{{{Kind: OpPriGC, A: 0}}, {opF}, {P(0, 2)}},
 	}
 	bound := 2
 	cfgs := []Config{cfg("mh", false, 8, 48, 48), cfg("mh", false, 8, 1, 1)}
@@ -1603,7 +1663,6 @@ func c03ConcScenarios(tier string) []*ConcScenario {
 			[][]Op{{opF}, {P(0, 2)}, {P(1, 2)}},
 			[][]Op{{opF}, {P(0, 2)}, {R(1)}})
 		gcProgs = append(gcProgs,
-			[][]Op{{{Kind: OpPriGC, A: 0}}, {opF}, {P(0, 2)}},
 			[][]Op{{{Kind: OpIdxGC, B: false}}, {opF}, {P(0, 2)}})
 	}
 	var scs []*ConcScenario
